@@ -97,6 +97,9 @@ func readMessage(buf *bytes.Reader) (*Message, error) {
 	if err := read(buf, &m.DataType, RSCP_DATA_DATATYPE_SIZE); err != nil {
 		return nil, err
 	}
+	if !m.DataType.IsADataType() {
+		return nil, fmt.Errorf("tag %s: 0x%02x: %w", m.Tag, uint8(m.DataType), ErrRscpInvalidDataType)
+	}
 
 	var l uint16
 	if err := read(buf, &l, RSCP_DATA_LENGTH_SIZE); err != nil {
